@@ -136,6 +136,7 @@ std::string snapshot() {
 static void clear_mirrors(Slot &s) {
     for (auto &kv : s.subs) if (kv.second.re_ok) regfree(&kv.second.re);
     s.subs.clear();
+    s.sub_history.clear();
     for (auto &x : s.srcs) { x.removed_gseq = R->gseq; s.recent_srcs.push_back(x); }
     s.srcs.clear();
     s.hstack.clear();
@@ -466,7 +467,7 @@ static void do_loop_via_dispatch() {
         int rc = do_dispatch_once();
         if (!ctx_is_looping_probe(&k2)) return;
         if (rc == 0) {
-            if (!sim::advance_idle()) return;   // nothing can ever happen again: the blocking loop would hang here
+            if (!sim::wait_kernel_event()) return;   // nothing can ever happen again: the blocking loop would hang here
         }
     }
 }
@@ -498,6 +499,8 @@ static SrcM *find_src(Slot &s, int type, long k1, long k2 = 0) {
 static void erase_src(Slot &s, int type, long k1, long k2 = 0) {
     for (size_t i = 0; i < s.srcs.size(); i++)
         if (s.srcs[i].type == type && s.srcs[i].k1 == k1 && s.srcs[i].k2 == k2) {
+            // a descriptor source registered with the DUP flag is keyed by the duplicate, which the user cannot name
+            if (type == M_SRC_TYPE_FD && (s.srcs[i].flags & M_SRC_DUP)) continue;
             s.srcs[i].removed_gseq = R->gseq;
             for (auto &ar : W->autoclose_regs) if (ar.slot == s.idx && ar.ud == s.srcs[i].ud) ar.removed = true;
             s.recent_srcs.push_back(s.srcs[i]);
@@ -582,7 +585,7 @@ void exec_op(const Op &op, bool in_cb, int cb_slot) {
             bool known;
             bool looping = ctx_is_looping_probe(&known);
             if (!looping) break;
-            if (rc == 0 && op.arg(1, 1)) { if (!sim::advance_idle()) break; }
+            if (rc == 0 && op.arg(1, 1)) { if (!sim::wait_kernel_event()) break; }
         }
         return;
     }
@@ -762,11 +765,15 @@ void exec_op(const Op &op, bool in_cb, int cb_slot) {
                 if (same_flags_update) {
                     if (fl & M_SRC_AUTOFREE) { /* ownership of the new pointer passed to the existing subscription */ }
                     it->second.ud = id;
+                    s.sub_history.push_back({topic, id});
+                    if (fl & M_SRC_ONESHOT) s.oneshot_sub_uds.insert(id);
                     return;
                 }
                 if (it->second.re_ok) regfree(&it->second.re);
                 s.subs.erase(it);
             }
+            s.sub_history.push_back({topic, id});
+            if (fl & M_SRC_ONESHOT) s.oneshot_sub_uds.insert(id);
             SubM sm;
             sm.topic = topic;
             sm.flags = fl;
